@@ -2,7 +2,7 @@
 use crate::rng::Rng;
 
 pub const KINDS: &[&str] = &[
-    "zeros", "runs", "text4", "random", "highbyte", "sparse3", "words", "repeat_far", "xx", "ramp",
+    "zeros", "runs", "text4", "random", "highbyte", "sparse3", "words", "repeat_far", "xx", "ramp", "skew",
 ];
 
 pub fn gen(rng: &mut Rng, kind: &str, len: usize) -> Vec<u8> {
@@ -49,6 +49,31 @@ pub fn gen(rng: &mut Rng, kind: &str, len: usize) -> Vec<u8> {
                 if d <= v.len() { for _ in 0..n { if v.len() < len { let b = v[v.len() - d]; v.push(b); } } }
                 else { v.push(rng.byte()); }
             }
+        }
+        "skew" => {
+            // Fibonacci-like symbol frequencies force maximal (15-bit, length-limited) Huffman codes;
+            // the rarest symbols come in runs so that long codes are adjacent in the output.
+            let k = rng.range(12, 40);
+            let base = rng.byte();
+            let mut counts: Vec<usize> = vec![];
+            let (mut a, mut b) = (1usize, rng.range(1, 3));
+            for _ in 0..k { counts.push(a); let c = a + b; a = b; b = c; if a > len { break; } }
+            let total: usize = counts.iter().sum();
+            let scale = (len as f64 / total.max(1) as f64).max(0.0);
+            let mut pool: Vec<u8> = vec![];
+            for (i, &c) in counts.iter().enumerate() {
+                let n = ((c as f64) * scale).ceil() as usize;
+                let sym = base.wrapping_add((i * 7) as u8);
+                for _ in 0..n.max(1) { pool.push(sym); }
+            }
+            // keep the rare symbols (front of pool) together, shuffle the rest in blocks
+            let rare = pool.len().min(rng.range(8, 40));
+            let mut rest: Vec<u8> = pool[rare..].to_vec();
+            for i in (1..rest.len()).rev() { let j = rng.below(i + 1); rest.swap(i, j); }
+            let cut = if rest.is_empty() { 0 } else { rng.below(rest.len()) };
+            v.extend_from_slice(&rest[..cut]);
+            v.extend_from_slice(&pool[..rare]);
+            v.extend_from_slice(&rest[cut..]);
         }
         "xx" => {
             let h = len / 2;
